@@ -226,11 +226,11 @@ def fock_budget(tau_star, C=20.0):
 ONE_GATES = ["Dgate", "Xgate", "Zgate", "Sgate", "Rgate", "Pgate", "Fouriergate"]
 TWO_GATES = ["BSgate", "MZgate", "sMZgate", "S2gate", "CXgate", "CZgate"]
 PREPS = ["Vacuum", "Coherent", "Squeezed", "DisplacedSqueezed", "Thermal"]
-FOCK_OK = set(ONE_GATES + TWO_GATES + PREPS + ["LossChannel", "Interferometer", "GaussianTransform", "Gaussian"])
+FOCK_OK = set(ONE_GATES + TWO_GATES + PREPS + ["LossChannel", "Interferometer", "GaussianTransform", "Gaussian", "New", "Del"])
 BOSONIC_OK = set(ONE_GATES + ["BSgate", "MZgate", "S2gate", "CXgate", "CZgate"] + PREPS +
-                 ["LossChannel", "ThermalLossChannel", "Gaussian"])
+                 ["LossChannel", "ThermalLossChannel", "Gaussian", "Del"])  # (New on bosonic: recorded finding under C08)
 GAUSSIAN_OK = set(ONE_GATES + TWO_GATES + PREPS + ["LossChannel", "ThermalLossChannel", "PassiveChannel",
-                                                  "Interferometer", "GaussianTransform", "Gaussian"])
+                                                  "Interferometer", "GaussianTransform", "Gaussian", "New", "Del"])
 
 
 def gen_params(rng, name, small, gen):
@@ -326,6 +326,37 @@ def gen_program(rng, gen, n=None, length=None, small=True, allow=None, prefix=Tr
 
 def spec_accepts(spec, okset):
     return all(c["op"] in okset for c in spec["cmds"])
+
+
+def extend_with_new_del(rng, gen, spec, allow, small, max_modes, with_new=True, with_del=True):
+    """Appends  New(k) + commands over the enlarged register  and / or  Del of some subsystems + commands over the
+    remaining ones  to a program spec.  "m" of a New command lists the labels it creates."""
+    cmds = list(spec["cmds"])
+    labels = list(range(spec["n"]))
+    nxt = spec["n"]
+
+    def part(labels):
+        sub = gen_program(rng, gen, n=len(labels), length=int(rng.integers(2, 7)), small=small, allow=allow, prefix=False)
+        out = []
+        for c in sub["cmds"]:
+            c = dict(c)
+            c["m"] = [labels[i] for i in c["m"]]
+            out.append(c)
+        return out
+
+    if with_new and len(labels) < max_modes:
+        k = int(rng.integers(1, min(2, max_modes - len(labels)) + 1))
+        cmds.append({"op": "New", "n": k, "p": [], "m": list(range(nxt, nxt + k)), "dag": False})
+        labels += list(range(nxt, nxt + k))
+        nxt += k
+        cmds += part(labels)
+    if with_del and len(labels) >= 2:
+        k = 1 if len(labels) == 2 or rng.random() < 0.7 else 2
+        d = sorted(int(x) for x in rng.choice(labels, k, replace=False))
+        cmds.append({"op": "Del", "p": [], "m": d, "dag": False})
+        labels = [x for x in labels if x not in d]
+        cmds += part(labels)
+    return {"n": spec["n"], "cmds": cmds, "structural": True}
 
 
 def pure_prefix(rng, n):
